@@ -1286,7 +1286,7 @@ func (g *gen) registryStress(emit func(hxlib.Case)) {
 		}
 		n++ // shift the pattern from provider to provider
 	}
-	reps := g.r.Budget(3000, 40000)
+	reps := g.r.Budget(3000, 6000) // the thorough tier is built with -race (≈ 10 x slower); an op has 20 s
 	lines = append(lines, fmt.Sprintf("rtfq A p/ %d", reps), fmt.Sprintf("rtfq B p/ %d", reps), fmt.Sprintf("rtfq C - %d", reps), "query P p/ -")
 	emit(hxlib.Case{Lines: lines, NonTrivial: true, Kind: "runtime-registry:4-providers:free-running-stress"})
 }
@@ -1317,7 +1317,8 @@ func generate(r *hxlib.Run, emit0 func(hxlib.Case)) {
 		emit(hxlib.Case{Lines: append([]string{"cfg " + b + " 0", "apivia ws"}, base...), NonTrivial: true, Kind: "regression:websocket-api"})
 	}
 	g.registryStress(emit)
-	n := r.Budget(400, 6000)
+	// the thorough tier is built with -race (the multi-provider registry queries race for real): ≈ 0.5 s per round there
+	n := r.Budget(400, 1500)
 	for i := 0; i < n; i++ {
 		for _, backend := range []string{"h", "b", "f", "g"} {
 			g.history(emit, backend, r.Rng.Intn(2) == 0)
